@@ -455,7 +455,12 @@ pub enum Op {
     /// the stored rollback snapshots of client `m`'s group disappear behind its back - what a
     /// second instance on the same database (an app extension pruning at start-up) does; the next
     /// commit race at that client then runs into a rollback that fails
-    SnapshotsVanish { m: u16 },
+    SnapshotsVanish {
+        m: u16,
+        /// only the oldest stored snapshot disappears (the others stay)
+        #[serde(default)]
+        only_oldest: bool,
+    },
     /// `n` application messages by one member in a row (so that deliveries can skip far ahead in
     /// the sender's ratchet)
     Burst { m: u16, n: u8 },
@@ -660,6 +665,8 @@ pub struct World {
     /// the receiver's own pending commit (relay index) just before the current delivery
     pub own_pending_before_delivery: Option<usize>,
     pub side: Option<side::SideGroup>,
+    /// names of stored snapshots the harness removed behind a client's back
+    pub vanished: HashMap<usize, BTreeSet<String>>,
 }
 
 pub fn relay_url(n: u8) -> RelayUrl {
@@ -836,6 +843,7 @@ impl World {
             leak_sink: None,
             own_pending_before_delivery: None,
             side: None,
+            vanished: HashMap::new(),
         };
         // deliver the initial welcomes
         for (k, rumor) in res.welcome_rumors.iter().enumerate() {
@@ -1796,7 +1804,7 @@ impl World {
                     }
                 }
             }
-            Op::SnapshotsVanish { m } => {
+            Op::SnapshotsVanish { m, only_oldest } => {
                 let Some(m) = self.member_sel(*m) else {
                     return Ok(());
                 };
@@ -1804,11 +1812,29 @@ impl World {
                     return Ok(());
                 }
                 let far = Timestamp::now().as_secs() + 1_000_000;
-                let n = match (self.clients[m].kind, self.clients[m].db_path.clone()) {
+                let gid = self.gid.clone();
+                let only_oldest = *only_oldest;
+                // what to do with a storage handle: prune everything, or release the oldest one
+                fn vanish<S: mdk_storage_traits::MdkStorageProvider>(st: &S, gid: &GroupId, only_oldest: bool, far: u64) -> Vec<String> {
+                    let listed = st.list_group_snapshots(gid).unwrap_or_default();
+                    if only_oldest {
+                        let epoch_of = |n: &str| n.rsplitn(3, '_').nth(1).and_then(|e| e.parse::<u64>().ok()).unwrap_or(u64::MAX);
+                        match listed.iter().map(|(n, _)| n.clone()).min_by_key(|n| epoch_of(n)) {
+                            Some(n) => {
+                                let _ = st.release_group_snapshot(gid, &n);
+                                vec![n]
+                            }
+                            None => vec![],
+                        }
+                    } else {
+                        let _ = st.prune_expired_snapshots(far);
+                        listed.into_iter().map(|(n, _)| n).collect()
+                    }
+                }
+                let gone: Vec<String> = match (self.clients[m].kind, self.clients[m].db_path.clone()) {
                     (BackendKind::Mem, _) => on_mdk!(self.clients[m].mdk(), mm => {
-                        use mdk_storage_traits::MdkStorageProvider;
                         use openmls_traits::OpenMlsProvider;
-                        mm.provider.storage().prune_expired_snapshots(far).unwrap_or(0)
+                        vanish(mm.provider.storage(), &gid, only_oldest, far)
                     }),
                     (kind, Some(path)) => {
                         // a second handle on the same file
@@ -1821,15 +1847,14 @@ impl World {
                             }
                         };
                         match second {
-                            Ok(st) => {
-                                use mdk_storage_traits::MdkStorageProvider;
-                                st.prune_expired_snapshots(far).unwrap_or(0)
-                            }
-                            Err(_) => 0,
+                            Ok(st) => vanish(&st, &gid, only_oldest, far),
+                            Err(_) => vec![],
                         }
                     }
-                    _ => 0,
+                    _ => vec![],
                 };
+                let n = gone.len();
+                self.vanished.entry(m).or_default().extend(gone);
                 self.note(format!("c{m}: {n} stored snapshot(s) pruned behind its back"));
                 self.count("op:snapshots-vanish");
             }
@@ -2194,6 +2219,14 @@ impl World {
         self.count("op:restart");
         self.note(format!("c{m} restarted"));
         let after = self.full_all(m).iter().map(|f| f.without_clock()).collect::<Vec<_>>();
+        // opening prunes rollback snapshots older than the configured time-to-live (that is C20's
+        // bound, not a restart effect): with a short time-to-live a snapshot may be gone afterwards
+        let mut before = before;
+        if self.clients[m].cfg.ttl < 86_400 {
+            for (b, a) in before.iter_mut().zip(after.iter()) {
+                b.snapshots.retain(|s| a.snapshots.contains(s));
+            }
+        }
         if before != after {
             let d = before
                 .iter()
